@@ -1087,7 +1087,10 @@ class yanny(OrderedDict):
         #
         # (but only as a token of their own, and not inside a quoted string).
         #
-        double_braces = re.compile(r'(?<![^\s{])\{\s*\{\s*\}\s*\}(?![^\s}])')
+        # A brace next to the token is allowed only if it is the array's own
+        # delimiter, i.e. itself at the edge of a word.
+        #
+        double_braces = re.compile(r'(?:(?<!\S)|(?<=(?<!\S)\{))\{\s*\{\s*\}\s*\}(?:(?!\S)|(?=\}(?!\S)))')
         quoted = re.compile(r'("[^"]*")')
         if len(lines) > 0:
             for line in lines.split('\n'):
